@@ -1103,7 +1103,9 @@ impl<'a> Sim<'a> {
                     }
                 }
             }
-            latest_honest = Some(proposal.clone());
+            // a proposal some honest node rejected can neither be decided nor re-proposed later
+            // (all honest nodes decide alike on the same state, so it never gathers 2/3)
+            latest_honest = if all_ok { Some(proposal.clone()) } else { None };
             if ri == 0 {
                 if let Some(n) = do_crash(self, 1) {
                     if self.nodes[n].down_until.is_none() {
